@@ -5,6 +5,7 @@ package main
 
 import (
 	"fmt"
+	"os"
 	"go/ast"
 	"go/token"
 	"go/types"
@@ -279,6 +280,9 @@ func (fv *FuncVer) havocLoop(st *State, f *Frame, li *loopInfo) {
 		hks = append(hks, k)
 	}
 	sort.Strings(hks)
+	if os.Getenv("GOCV_DEBUG_LOOPS") != "" {
+		fmt.Fprintf(os.Stderr, "loop %s.%d mods: all=%v heaps=%v cells=%d\n", f.fn.Name(), li.header.Index, ms.all, hks, len(cks))
+	}
 	if !ms.all {
 		fv.havocKeys(st, hks)
 	}
@@ -551,6 +555,9 @@ func (fv *FuncVer) modCall(st *State, f *Frame, ci ssa.CallInstruction, ms *modS
 			return
 		}
 		if !fv.eng.assumedPure(cv) {
+			if os.Getenv("GOCV_DEBUG_LOOPS") != "" {
+				fmt.Fprintf(os.Stderr, "loop: unknown effects of call to %s\n", cv.String())
+			}
 			ms.all = true
 		}
 		return
